@@ -11,4 +11,6 @@ mkdir -p build evidence replays
   done
   rm -f /tmp/sany_$$.log )
 gcc -O1 -g -w -c rt/rt.c -o build/rt_selftest.o
+# binding self-test: a recorded trace is accepted, a corrupted one and one with a dropped event are rejected
+python3 tools/selftest.py
 echo setup ok
